@@ -204,6 +204,7 @@ func (x *Exec) callStatic(st *State, fn *ssa.Function, args []Value, binds []Val
 			x.pureFail = "recursion/inlining depth at " + key
 		}
 		x.noteOnce("call to %s not inlined (recursive group or depth): frame from static effects, result unconstrained", key)
+		pre0 := st.clone()
 		x.havocCall(st, fn, args, binds)
 		results := x.havocResults(fn.Signature, fn.Name())
 		for i, r := range results {
@@ -213,6 +214,7 @@ func (x *Exec) callStatic(st *State, fn *ssa.Function, args []Value, binds []Val
 				}
 			}
 		}
+		x.assumeCommonPost(st, pre0, fn, args, binds, results)
 		x.recordEvent(st, eventNameOfFunc(fn), args, results)
 		k(st, results)
 		return
@@ -292,6 +294,12 @@ func (x *Exec) havocCall(st *State, fn *ssa.Function, args []Value, binds []Valu
 }
 
 func (x *Exec) applyEffects(st *State, eff *Effects, args []Value, binds []Value, why string) {
+	if st.alloc != nil && !x.pureMode {
+		// the callee / loop body may allocate: the allocation counter only grows
+		na := x.freshVar("alloc", "Int")
+		st.assume(Cmp(">=", na, st.alloc))
+		st.alloc = na
+	}
 	if x.pureMode && (len(eff.fields) > 0 || len(eff.heaps) > 0 || eff.opaque || eff.events) {
 		x.pureFail = "effectful call " + why
 	}
@@ -477,8 +485,24 @@ func (x *Exec) applyContract(st *State, fn *ssa.Function, fc *FuncContract, args
 		}
 		st.assume(g)
 	}
+	x.assumeCommonPost(st, pre, fn, args, binds, results)
 	x.recordEvent(st, eventNameOfFunc(fn), args, results)
 	k(st, results)
+}
+
+// assumeCommonPost assumes the type-wide postconditions of a callee (proved when the callee is checked).
+func (x *Exec) assumeCommonPost(st, pre *State, fn *ssa.Function, args, binds []Value, results []Value) {
+	cs := x.w.commonPostFor(fn)
+	if len(cs) == 0 {
+		return
+	}
+	env := x.specEnvForCall(st, pre, fn, args, binds)
+	env.setResults(fn, results)
+	for _, c := range cs {
+		if g, err := env.evalBool(c.Expr); err == nil {
+			st.assume(g)
+		}
+	}
 }
 
 // assumable counts the ensures clauses callers may rely on.
@@ -542,6 +566,14 @@ func (x *Exec) callParamFunc(st *State, pf *ParamFuncV, args []Value, pos token.
 				x.contractError(c, err)
 				continue
 			}
+			st.assume(g)
+		}
+	}
+	// a function value received by a method is required to respect the type-wide postconditions
+	for _, c := range x.w.commonPostFor(root.fn) {
+		env := x.newSpecEnv(st, pre, root.fn)
+		env.bindRootParams(root)
+		if g, err := env.evalBool(c.Expr); err == nil {
 			st.assume(g)
 		}
 	}
@@ -977,12 +1009,23 @@ func (x *Exec) logAppendOnly(st *State, old, nw *EvKind) {
 // bound method the obligation is "its ensures clauses imply the param clause",
 // checked on fresh symbolic results.
 func (x *Exec) checkParamContracts(st *State, callee *ssa.Function, fc *FuncContract, args []Value, pos token.Pos) {
-	if fc == nil || len(fc.Params) == 0 {
+	common := x.w.commonPostFor(callee)
+	if (fc == nil || len(fc.Params) == 0) && len(common) == 0 {
 		return
 	}
 	for i, p := range callee.Params {
-		clauses := fc.Params[p.Name()]
-		if len(clauses) == 0 || i >= len(args) {
+		if _, isFn := p.Type().Underlying().(*types.Signature); !isFn {
+			continue
+		}
+		var clauses []*Clause
+		if fc != nil {
+			clauses = fc.Params[p.Name()]
+		}
+		if len(clauses)+len(common) == 0 || i >= len(args) {
+			continue
+		}
+		if cv, ok := args[i].(*ClosureV); ok && x.w.unwrapBound(cv.fn).Parent() != nil {
+			x.checkClosureAgainst(st, callee, p.Name(), cv, clauses, common, pos)
 			continue
 		}
 		cv, ok := args[i].(*ClosureV)
@@ -1009,6 +1052,8 @@ func (x *Exec) checkParamContracts(st *State, callee *ssa.Function, fc *FuncCont
 		tfc := x.w.contracts[funcKey(target)]
 		sig := target.Signature
 		scratch := st.clone()
+		// a named method of the same type guarantees the type-wide postconditions by its own check
+		_ = common
 		results := x.havocResults(sig, "pf_"+target.Name())
 		env := x.newSpecEnv(scratch, scratch, target)
 		// assume the target's own ensures on these results
@@ -1079,4 +1124,57 @@ func (w *World) unwrapBound(fn *ssa.Function) *ssa.Function {
 		}
 	}
 	return fn
+}
+
+// checkClosureAgainst: an anonymous function passed for a contracted parameter is executed
+// symbolically on arbitrary arguments (it shares the captured variables of the current state) and
+// must satisfy the param clauses and the type-wide postconditions at each of its returns.
+func (x *Exec) checkClosureAgainst(st *State, callee *ssa.Function, pname string, cv *ClosureV, clauses, common []*Clause, pos token.Pos) {
+	if len(st.frames) >= maxInlineDepth {
+		return
+	}
+	scratch := st.clone()
+	entry := scratch.clone()
+	var cargs []Value
+	for _, p := range cv.fn.Params {
+		v := x.havocOfType("cl_"+p.Name(), p.Type())
+		if t, ok := v.(*Term); ok {
+			for _, f := range x.typeFacts(t, p.Type(), 0) {
+				scratch.assume(f)
+			}
+		}
+		cargs = append(cargs, v)
+	}
+	root := st.frames[0]
+	x.runFunc(scratch, cv.fn, cargs, cv.binds, func(s2 *State, res []Value) {
+		env := x.newSpecEnv(s2, entry, root.fn)
+		env.bindRootParams(s2.frames[0])
+		for j, r := range res {
+			env.vars["result"+fmt.Sprint(j)] = r
+		}
+		if len(res) > 0 {
+			env.vars["result"] = res[0]
+			if cv.fn.Signature.Results().At(len(res)-1).Type().String() == "error" {
+				env.vars["err"] = res[len(res)-1]
+			}
+		}
+		for _, c := range clauses {
+			if c.Kind != "ensures" {
+				continue
+			}
+			g, err := env.evalBool(c.Expr)
+			if err != nil {
+				x.contractError(c, err)
+				continue
+			}
+			x.oblige(s2, "requires", funcKey(callee)+":param-"+pname+":"+c.Label+"@"+x.srcAt(pos), c.Props, g, pos)
+		}
+		for _, c := range common {
+			g, err := env.evalBool(c.Expr)
+			if err != nil {
+				continue
+			}
+			x.oblige(s2, "requires", funcKey(callee)+":param-"+pname+":common:"+c.Label+"@"+x.srcAt(pos), c.Props, g, pos)
+		}
+	})
 }
